@@ -477,33 +477,54 @@ def optLoop (v : Variant) : Nat → OptSt → Sl → Res LoopOut
         | .err e => .err e
         | .panic k => .panic k
 
+/-- what tcp.go:296-314 reads from the fixed 20-byte header -/
+structure FixedHdr where
+  srcPort : Nat
+  sPort : Bytes
+  dstPort : Nat
+  dPort : Bytes
+  seq : Nat
+  ack : Nat
+  b12 : UInt8
+  b13 : UInt8
+  window : Nat
+  checksum : Nat
+  urgent : Nat
+  deriving Repr, DecidableEq
+
+/-- tcp.go:296-314: the reads of the fixed header, in source order. -/
+def parseFixed (data : Sl) : Res FixedHdr := do
+  let sp ← data.slice 0 2
+  let srcPort ← u16 sp
+  let dp ← data.slice 2 4
+  let dstPort ← u16 dp
+  let s ← data.slice 4 8
+  let seq ← u32 s
+  let s ← data.slice 8 12
+  let ack ← u32 s
+  let b12 ← data.idx 12
+  let b13 ← data.idx 13
+  let s ← data.slice 14 16
+  let window ← u16 s
+  let s ← data.slice 16 18
+  let checksum ← u16 s
+  let s ← data.slice 18 20
+  let urgent ← u16 s
+  pure { srcPort := srcPort, sPort := sp.vis, dstPort := dstPort, dPort := dp.vis, seq := seq, ack := ack,
+         b12 := b12, b13 := b13, window := window, checksum := checksum, urgent := urgent }
+
 /-- (*TCP).DecodeFromBytes (tcp.go:291-551). -/
 def decodeFromBytes (v : Variant) (old : Layer) (data : Sl) : Res DecOut :=
   if data.len < 20 then .ok { layer := old, trunc := true, err := true } else do
-    let sp ← data.slice 0 2
-    let srcPort ← u16 sp
-    let dp ← data.slice 2 4
-    let dstPort ← u16 dp
-    let s ← data.slice 4 8
-    let seq ← u32 s
-    let s ← data.slice 8 12
-    let ack ← u32 s
-    let b12 ← data.idx 12
-    let b13 ← data.idx 13
-    let s ← data.slice 14 16
-    let window ← u16 s
-    let s ← data.slice 16 18
-    let checksum ← u16 s
-    let s ← data.slice 18 20
-    let urgent ← u16 s
+    let h ← parseFixed data
     -- Options = Options[:0] (or opts[:0]); Padding = Padding[:0]
     let l1 : Layer :=
       { old with
-        srcPort := srcPort, sPort := sp.vis, dstPort := dstPort, dPort := dp.vis,
-        seq := seq, ack := ack, dataOffset := b12.toNat / 16,
-        fin := bit b13 1, syn := bit b13 2, rst := bit b13 4, psh := bit b13 8,
-        ackF := bit b13 16, urg := bit b13 32, ece := bit b13 64, cwr := bit b13 128,
-        ns := bit b12 1, window := window, checksum := checksum, urgent := urgent,
+        srcPort := h.srcPort, sPort := h.sPort, dstPort := h.dstPort, dPort := h.dPort,
+        seq := h.seq, ack := h.ack, dataOffset := h.b12.toNat / 16,
+        fin := bit h.b13 1, syn := bit h.b13 2, rst := bit h.b13 4, psh := bit h.b13 8,
+        ackF := bit h.b13 16, urg := bit h.b13 32, ece := bit h.b13 64, cwr := bit h.b13 128,
+        ns := bit h.b12 1, window := h.window, checksum := h.checksum, urgent := h.urgent,
         options := [], padding := [],
         multipath := if v.resetMultipath then false else old.multipath }
     if l1.dataOffset < 5 then pure { layer := l1, trunc := false, err := true }
@@ -659,21 +680,19 @@ def l4checksum (p : Option Pseudo) (headerAndPayload : Bytes) : Option Nat :=
     | none => none
     | some ps => some (Cksum.fold (Cksum.l4sum ps iPProtocolTCP headerAndPayload))
 
-/-- The stores of SerializeTo into the window `bytes` returned by PrependBytes.  `stale` is
-    what the window held (never assumed zero), `rest` the buffer contents behind it
-    (`b.Bytes()` = window ++ rest).  `l` is the layer after the FixLengths block. -/
-def serializeWin (l : Layer) (fix csum : Bool) (stale rest : Bytes) : Res (Bytes × Layer) := do
-  let bs ← put16 stale 0 l.srcPort
+/-- tcp.go:214-220: the stores into the fixed 20-byte header (bytes 16,17 come last). -/
+def putFixed (l : Layer) (bs : Bytes) : Res Bytes := do
+  let bs ← put16 bs 0 l.srcPort
   let bs ← put16 bs 2 l.dstPort
   let bs ← put32 bs 4 l.seq
   let bs ← put32 bs 8 l.ack
   let bs ← put16 bs 12 (flagsAndOffset l)
   let bs ← put16 bs 14 l.window
-  let bs ← put16 bs 18 l.urgent
-  let (bs, start) ← writeOpts fix bs 20 l.options
-  -- copy(bytes[start:], t.Padding)
-  if start > bs.length then .panic .slice else do
-  let bs ← copyAt bs start bs.length l.padding
+  put16 bs 18 l.urgent
+
+/-- tcp.go:237-247: checksum computation over `b.Bytes()` = window ++ rest, and the store of
+    the checksum field. -/
+def putChecksum (l : Layer) (csum : Bool) (bs rest : Bytes) : Res (Bytes × Layer) :=
   if csum then do
     let bs ← put bs 16 0
     let bs ← put bs 17 0
@@ -685,6 +704,17 @@ def serializeWin (l : Layer) (fix csum : Bool) (stale rest : Bytes) : Res (Bytes
   else do
     let bs ← put16 bs 16 l.checksum
     pure (bs, l)
+
+/-- The stores of SerializeTo into the window `bytes` returned by PrependBytes.  `stale` is
+    what the window held (never assumed zero), `rest` the buffer contents behind it
+    (`b.Bytes()` = window ++ rest).  `l` is the layer after the FixLengths block. -/
+def serializeWin (l : Layer) (fix csum : Bool) (stale rest : Bytes) : Res (Bytes × Layer) := do
+  let bs ← putFixed l stale
+  let (bs, start) ← writeOpts fix bs 20 l.options
+  -- copy(bytes[start:], t.Padding)
+  if start > bs.length then .panic .slice else do
+  let bs ← copyAt bs start bs.length l.padding
+  putChecksum l csum bs rest
 
 /-- the bytes currently under a window -/
 def window (b : SBuf.SBuf) (w : SBuf.Win) : Bytes := (b.mem.drop w.off).take w.n
